@@ -198,6 +198,14 @@ def execute(case):
   bad = _state_check(root, desc, lenient)
   if bad:
     return res.violate(bad[1], op='construct', rule=bad[0])
+  def schema_text():
+    """The schema the root is bound to, defaults included (it belongs to the class / spec, not to this value)."""
+    owner = getattr(type(root), '__schema__', None) if isinstance(root, pg.Object) else getattr(root, 'value_spec', None)
+    try:
+      return repr(owner)
+    except Exception as e:   # pylint: disable=broad-except
+      return 'repr raised %r' % e
+  schema_before = schema_text()
   n_rejected = 0
   n_struct_ok = 0
   for op in case['ops']:
@@ -517,6 +525,10 @@ def execute(case):
                            outcome='rejected' if exc else 'accepted', **sigx)
     if exc is None and name in STRUCT:
       n_struct_ok += 1
+    if schema_text() != schema_before:
+      return res.violate('the operation changed the schema itself (a default value object of the schema was handed out and '
+                         'mutated): %s -> %s | %s' % (schema_before[:600], schema_text()[:600], what),
+                         op=name, rule='schema-modified', **sigx)
     bad = _state_check(root, desc, lenient)
     if bad:
       return res.violate('%s | after %s | %s' % (bad[1], 'exception %r' % exc if exc else 'normal return', what),
